@@ -1,10 +1,185 @@
 import JediModel.Gen.C11
-import JediModel.Model.Call
-/-! # C11 — signatures and docstrings mirror the definition; index locates the argument -/
+import JediModel.Lemmas.Call
+/-! # C11 — signatures and docstrings mirror the definition; index locates the argument
+
+Property theorems only (helper lemmas live in `Lemmas/Call.lean`).
+
+Python side: `Sig` is a syntactically valid parameter list (`po…, /, pk…, *vp | *, ko…, **vk`),
+`Sig.toks` the children of parso's `parameters` node for its text, `Sig.params` what
+`inspect.signature` shows (names with kinds), `pyBind` CPython's binding of one call argument. -/
 namespace JediModel.Props.C11
 open JediModel.Call
 
-/-- the `'__'` literal of `get_kind` is the one the model's `dunder` tests -/
-theorem gen_dunder_prefix : JediModel.Gen.C11.dunderPrefix.toList = ['_', '_'] := by decide
+/-! ## the literals of the source the model is written against -/
+
+/-- `get_kind` tests `startswith('__')`, `get_public_name` strips exactly that prefix -/
+theorem gen_dunder_convention :
+    JediModel.Gen.C11.dunderPrefix.toList = ['_', '_'] ∧
+    JediModel.Gen.C11.publicPrefix = JediModel.Gen.C11.dunderPrefix ∧
+    JediModel.Gen.C11.publicDrop = JediModel.Gen.C11.dunderPrefix.length := by decide
+
+/-- the `if` tests of `get_kind`, in the order the model transcribes them -/
+theorem gen_get_kind_tests :
+    JediModel.Gen.C11.getKindTests =
+      ["tree_param.star_count == 1", "tree_param.star_count == 2",
+       "tree_param.name.value.startswith('__')", "param_appeared", "p == '/'", "p == '*'",
+       "p.type == 'param'", "p.star_count", "p == tree_param"] := by decide
+
+/-- separators of `to_string`, the `[1:]` of a bound signature, the pieces of `docstring()` -/
+theorem gen_rendering_literals :
+    JediModel.Gen.C11.paramToStringLiterals = [": ", "="] ∧
+    JediModel.Gen.C11.sigToStringLiterals = [")", " -> ", "/", "(", "/", ", ", "*"] ∧
+    JediModel.Gen.C11.boundSlice = ["params[1:]"] ∧
+    JediModel.Gen.C11.docstringReturns =
+      ["''", "doc", "signature_text + '\\n\\n' + doc", "signature_text + doc"] ∧
+    JediModel.Gen.C11.docSignatureJoin = ["\n"] := by decide
+
+/-- the guards of `calculate_index` the model's `scanArgs` / `indexLoop` transcribe -/
+theorem gen_calculate_index_tests :
+    JediModel.Gen.C11.calculateIndexTests =
+      ["not args", "param_names", "star_count", "not is_kwarg",
+       "key_start is not None and (not star_count == 1) or star_count == 2",
+       "i + 1 != len(args)", "kind == Parameter.VAR_POSITIONAL",
+       "kind in (Parameter.POSITIONAL_OR_KEYWORD, Parameter.POSITIONAL_ONLY)",
+       "param_name.string_name not in used_names and (kind == Parameter.KEYWORD_ONLY or (kind == Parameter.POSITIONAL_OR_KEYWORD and positional_count <= i))",
+       "kind == Parameter.VAR_KEYWORD", "had_equal", "i == positional_count", "star_count",
+       "had_equal", "param_name.string_name == key_start",
+       "param_name.string_name.startswith(key_start)"] := rfl
+
+/-! ## parameter kinds -/
+
+/- FULL (false, see `get_kind_dunder_witness`):
+   theorem get_kind_eq_pyKind (s : Sig) : paramNames s.toks = s.params -/
+
+/-- `get_kind` gives every parameter of every valid parameter list the kind `inspect` gives it
+(names, annotations, defaults and order unchanged), provided no positional-or-keyword or
+keyword-only parameter is spelled `__x` -/
+theorem get_kind_eq_pyKind_partial (s : Sig)
+    (hpk : ∀ p ∈ s.pk, dunder p.name = false) (hko : ∀ p ∈ s.ko, dunder p.name = false) :
+    paramNames s.toks = s.params :=
+  paramNames_toks s hpk hko
+
+example : ∃ s : Sig, s.po ≠ [] ∧ s.pk ≠ [] ∧ s.vp.isSome ∧ s.ko ≠ [] ∧ s.vk.isSome ∧
+    (∀ p ∈ s.pk, dunder p.name = false) ∧ (∀ p ∈ s.ko, dunder p.name = false) :=
+  ⟨⟨[⟨['_', '_', 'u'], none, none⟩], [⟨['v'], none, some ['3']⟩], some ⟨['a'], none, none⟩,
+    [⟨['k'], some ['i', 'n', 't'], none⟩], some ⟨['w'], none, none⟩⟩, by decide⟩
+
+/-- F12, kernel-checked: `def f(__a, b)` – jedi says POSITIONAL_ONLY, Python POSITIONAL_OR_KEYWORD -/
+theorem get_kind_dunder_witness :
+    paramNames (Sig.toks ⟨[], [⟨['_', '_', 'a'], none, none⟩, ⟨['b'], none, none⟩], none, [], none⟩) ≠
+      Sig.params ⟨[], [⟨['_', '_', 'a'], none, none⟩, ⟨['b'], none, none⟩], none, [], none⟩ := by decide
+
+/-! ## `to_string` -/
+
+/-- what `to_string()` prints between the parentheses is, token for token, the canonical
+parameter list of the same signature with public names: `/` after the positional-only section,
+a bare `*` exactly when keyword-only parameters follow and there is no `*args` -/
+theorem to_string_tokens (s : Sig) :
+    reparse (paramStrings s.params false false) = s.pub.toks := by
+  rw [paramStrings_params]
+  obtain ⟨po, pk, vp, ko, vk⟩ := s
+  simp only [reparse_append, reparse_map, Sig.pub, Sig.toks, stars]
+  cases po <;> cases vp <;> cases ko <;> cases vk <;>
+    simp [reparse, midSToks, midToks, vkToks, P.pname, P.pub, P.tok, stars]
+
+/-- `to_string()` re-parses to the same signature: kinds, annotations, defaults and order of the
+re-parsed text are those of the original, names are the public names -/
+theorem to_string_roundtrip (s : Sig)
+    (hpk : ∀ p ∈ s.pk, dunder (publicName p.name) = false)
+    (hko : ∀ p ∈ s.ko, dunder (publicName p.name) = false) :
+    paramNames (reparse (paramStrings s.params false false)) = s.pub.params := by
+  rw [to_string_tokens]
+  apply paramNames_toks
+  · intro p hp
+    simp only [Sig.pub, List.mem_map] at hp
+    obtain ⟨q, hq, rfl⟩ := hp
+    exact hpk q hq
+  · intro p hp
+    simp only [Sig.pub, List.mem_map] at hp
+    obtain ⟨q, hq, rfl⟩ := hp
+    exact hko q hq
+
+example : ∃ s : Sig, s.po ≠ [] ∧ s.ko ≠ [] ∧ s.vp = none ∧
+    (∀ p ∈ s.pk, dunder (publicName p.name) = false) ∧
+    (∀ p ∈ s.ko, dunder (publicName p.name) = false) :=
+  ⟨⟨[⟨['u'], none, none⟩], [⟨['v'], none, some ['3']⟩], none, [⟨['k'], none, none⟩], none⟩, by decide⟩
+
+/-- the text itself for `def f(u, /, v=3, *, k: int, **w)` -/
+theorem to_string_example :
+    sigToString ['f'] (Sig.params ⟨[⟨['u'], none, none⟩], [⟨['v'], none, some ['3']⟩], none,
+      [⟨['k'], some ['i', 'n', 't'], none⟩], some ⟨['w'], none, none⟩⟩) [] =
+      "f(u, /, v=3, *, k: int, **w)".toList := by decide
+
+/-! ## `process_params`, bound signatures -/
+
+/-- `process_params` re-orders nothing and drops nothing on a valid parameter list whose body
+forwards neither `*args` nor `**kwargs` -/
+theorem process_params_id (s : Sig) (h : ((s.pk ++ s.ko).map P.name).Nodup) :
+    processParams s.params = s.params :=
+  processParams_params s h
+
+/-- the parameters `get_signatures` shows for an unbound callable are `inspect`'s -/
+theorem signature_params_unbound (s : Sig)
+    (hpk : ∀ p ∈ s.pk, dunder p.name = false) (hko : ∀ p ∈ s.ko, dunder p.name = false)
+    (h : ((s.pk ++ s.ko).map P.name).Nodup) :
+    signatureParams false (paramNames s.toks) = s.params := by
+  simp [signatureParams, paramNames_toks s hpk hko, processParams_params s h]
+
+/-- bound ⇒ exactly the first parameter is dropped -/
+theorem bound_drops_self (s : Sig)
+    (hpk : ∀ p ∈ s.pk, dunder p.name = false) (hko : ∀ p ∈ s.ko, dunder p.name = false)
+    (h : ((s.pk ++ s.ko).map P.name).Nodup) :
+    signatureParams true (paramNames s.toks) = s.params.drop 1 := by
+  simp [signatureParams, paramNames_toks s hpk hko, processParams_params s h]
+
+/-- Python's view of a bound method (`inspect._signature_bound_method`): the first positional
+parameter is consumed; a leading `*args` absorbs `self` and stays -/
+def pyBound (s : Sig) : Sig :=
+  match s.po, s.pk with
+  | _ :: po, _ => { s with po := po }
+  | [], _ :: pk => { s with pk := pk }
+  | [], [] => s
+
+/- FULL (false, see `bound_star_args_witness`):
+   theorem bound_eq_pyBound (s : Sig) … : signatureParams true (paramNames s.toks) = (pyBound s).params -/
+
+/-- where Python binds `self`/`cls` to a named parameter, jedi removes exactly that parameter -/
+theorem bound_eq_pyBound_partial (s : Sig)
+    (hpk : ∀ p ∈ s.pk, dunder p.name = false) (hko : ∀ p ∈ s.ko, dunder p.name = false)
+    (h : ((s.pk ++ s.ko).map P.name).Nodup) (hfirst : s.po ≠ [] ∨ s.pk ≠ []) :
+    signatureParams true (paramNames s.toks) = (pyBound s).params := by
+  rw [bound_drops_self s hpk hko h]
+  obtain ⟨po, pk, vp, ko, vk⟩ := s
+  cases po with
+  | cons p po => simp [pyBound, Sig.params]
+  | nil =>
+    cases pk with
+    | cons p pk => simp [pyBound, Sig.params]
+    | nil => simp at hfirst
+
+example : ∃ s : Sig, (s.po ≠ [] ∨ s.pk ≠ []) ∧ s.ko ≠ [] ∧ ((s.pk ++ s.ko).map P.name).Nodup :=
+  ⟨⟨[], [⟨['s', 'e', 'l', 'f'], none, none⟩, ⟨['a'], none, none⟩], none, [⟨['k'], none, none⟩], none⟩,
+    by decide⟩
+
+/-- kernel-checked: `def m(*args, k=1)` reached through an instance – jedi drops `*args`
+(`m(*, k=1)`), Python keeps it (`(*args, k=1)`) -/
+theorem bound_star_args_witness :
+    signatureParams true (paramNames (Sig.toks ⟨[], [], some ⟨['a', 'r', 'g', 's'], none, none⟩,
+      [⟨['k'], none, some ['1']⟩], none⟩)) ≠
+      (pyBound ⟨[], [], some ⟨['a', 'r', 'g', 's'], none, none⟩, [⟨['k'], none, some ['1']⟩], none⟩).params := by
+  decide
+
+/-! ## docstring assembly -/
+
+/-- `docstring()` is the raw text preceded by the signature line(s) and a blank line; when
+either part is empty it is just the other one -/
+theorem docstring_assembly (sig doc : Str) :
+    (sig ≠ [] → doc ≠ [] → docAssemble sig doc = sig ++ ['\n', '\n'] ++ doc) ∧
+    (doc = [] → docAssemble sig doc = sig) ∧ (sig = [] → docAssemble sig doc = doc) := by
+  refine ⟨?_, ?_, ?_⟩
+  · intro h1 h2
+    cases sig <;> cases doc <;> simp_all [docAssemble]
+  · rintro rfl; cases sig <;> simp [docAssemble]
+  · rintro rfl; cases doc <;> simp [docAssemble]
 
 end JediModel.Props.C11
